@@ -81,6 +81,7 @@ func NewConnectionHandler(
 	localShipID,
 	remoteSki,
 	remoteShipId string) *ShipConnection {
+	dataProvider, dataHandler = verifWrap(dataProvider, dataHandler, role, remoteSki)
 	ship := &ShipConnection{
 		infoProvider: dataProvider,
 		dataWriter:   dataHandler,
@@ -111,6 +112,7 @@ func (c *ShipConnection) DataHandler() api.WebsocketDataWriterInterface {
 
 // start SHIP communication
 func (c *ShipConnection) Run() {
+	defer verifEntry(c, "run")()
 	c.handleShipMessage(false, nil)
 }
 
@@ -121,6 +123,7 @@ func (c *ShipConnection) ShipHandshakeState() (model.ShipMessageExchangeState, e
 
 // invoked when pairing for a pending request is approved
 func (c *ShipConnection) ApprovePendingHandshake() {
+	defer verifEntry(c, "approve")()
 	state := c.getState()
 	if state != model.SmeHelloStatePendingListen || c.isConnectionClosed() {
 		// TODO: what to do if the state is different?
@@ -145,6 +148,7 @@ func (c *ShipConnection) ApprovePendingHandshake() {
 
 // invoked when pairing for a pending request is denied
 func (c *ShipConnection) AbortPendingHandshake() {
+	defer verifEntry(c, "abort")()
 	state := c.getState()
 	if (state != model.SmeHelloStatePendingListen && state != model.SmeHelloStateReadyListen) || c.isConnectionClosed() {
 		// TODO: what to do if the state is differnet?
@@ -160,6 +164,7 @@ func (c *ShipConnection) AbortPendingHandshake() {
 
 // close this ship connection
 func (c *ShipConnection) CloseConnection(safe bool, code int, reason string) {
+	defer verifEntry(c, "close")()
 	c.shutdownOnce.Do(func() {
 		c.setConnectionClosed()
 
